@@ -128,6 +128,25 @@ CHECKS = {
    note="Retry loops are evaluated for two iterations; random.choice over large lists is represented by one entry per (bank-code length, has-BIC) class; 'for every seed a valid result' is decided as must-pass-through validation.",
    design="3/C13"),
 }
+# Round 5 additions, appended to the level text / technique of the checks they belong to.
+PREMISE = (" A call-graph premise (Rxx-P1-stateless) is decided first: nothing this property's entry points reach is memoised (functools caches keyed on a value object are keyed on its "
+           "text alone) or writes module-level / default-argument state - the per-call analysis generalises to every call only then.")
+EXTRA_TEXT = {
+ "C01": PREMISE + " The constructor may not raise on a condition over the text as typed, before normalisation. A string function that hands out the remainder itself (never building the number) is recognised by evaluation on concrete texts and verified against decimal concatenation for every IBAN length.",
+ "C02": PREMISE + " from_bban is also evaluated with each of the 126 country codes as a concrete text (per-country shortcuts such as digits taken from the table are findings).",
+ "C03": PREMISE + " The expansion function is verified on all-letter texts of every length up to 34 characters (68 digits).",
+ "C04": PREMISE, "C05": PREMISE, "C06": PREMISE, "C07": PREMISE,
+ "C08": PREMISE + " Over-long components are also probed made of letters and of punctuation: the component's own error class must answer before any national algorithm sees the text.",
+ "C09": PREMISE + " R09-converse: a structure-conforming, nationally valid BBAN that was not built by the library is read into all its components and rebuilt, and must come back exactly (filler positions zero); "
+        "a country code spelled in lower case must give a library error or a nationally valid BBAN.",
+ "C10": " The constructors may not raise on a condition over the raw text (R10-norm raw-condition).",
+ "C11": PREMISE + " R11-disjoint: no BBAN position is returned by two component accessors (126 countries).",
+ "C12": PREMISE + " Registry entries whose BIC or bank code is not in compact canonical form are always among the keys evaluated in the quick tier.",
+ "C13": PREMISE + " One representative registry entry per shape of bank code (length and per-character kind) is drawn.",
+ "C14": " R14-module-objects: a class one instance of which is created at module level may not store attributes outside its constructor (decided on the syntax tree, also when the class cannot be evaluated).",
+ "C17": " R17-algo decides 'reads only fields the country defines' by behaviour: an undefined field is inert iff the algorithm's outcomes are unchanged with its '' entry left out.",
+}
+EXTRA_TECH = {k: " + call-graph reachability premise (no memoisation / module state behind the property's entry points)" for k in ("C01", "C02", "C03", "C04", "C05", "C06", "C07", "C08", "C09", "C11", "C12", "C13")}
 NA_REASON = "check not built yet (work in progress; see DESIGN.md section 3 for the plan)"
 
 m = {
@@ -154,7 +173,7 @@ for p in props:
     m["checks"].append({
         "property_id": pid, "quick_cmd": f"./check {pid} --tier quick", "thorough_cmd": f"./check {pid} --tier thorough",
         "evidence_file": f"evidence/{pid}.json", "replay_cmd_template": f"./check {pid} --replay {{path}}", "engine": "sv",
-        "level_claimed": {"category": "other", "text": c["text"], "design_ref": c["design"]},
-        "level_note": c["note"], "technique": c["technique"]})
+        "level_claimed": {"category": "other", "text": c["text"] + EXTRA_TEXT.get(pid, ""), "design_ref": c["design"]},
+        "level_note": c["note"], "technique": c["technique"] + EXTRA_TECH.get(pid, "")})
 json.dump(m, open(os.path.join(HERE, "MANIFEST.json"), "w"), indent=1)
 print("checks:", [c["property_id"] for c in m["checks"]], "n/a:", len(m["not_applicable"]))
